@@ -5,7 +5,7 @@
 From Coq Require Import List NArith ZArith Bool Lia ZifyBool Arith FinFun.
 From RPFT Require Import Base.Sexp Base.PyStr Base.PyStrFacts Base.Result Base.ODict Gen.Tables
   Cell.Cell Cell.CellFacts Row.Ty Row.Layout Row.RowParse Row.RowUnparse Row.TextFacts Row.RoundTrip
-  Row.RoundTripFacts.
+  Row.RekeyFacts Row.RoundTripFacts.
 Import ListNotations.
 Local Open Scope N_scope.
 
@@ -56,14 +56,14 @@ Qed.
 Lemma rekey_gen cx all (f : str -> str) (cells : list (str * str)) : forall acc : list (str * str),
   (forall kv, In kv cells -> ctx_h2f cx all (fst kv) = Ok (f (fst kv))) ->
   NoDup (map fst acc ++ map f (map fst cells)) ->
-  foldM (fun acc kv => do k <- ctx_h2f cx all (fst kv); Ok (oset str_eqb acc k (snd kv))) cells acc
+  foldM (fun acc kv => do k <- ctx_h2f cx all (fst kv); Ok (rekey_put acc k (snd kv))) cells acc
   = Ok (acc ++ map (fun kv => (f (fst kv), snd kv)) cells).
 Proof.
   induction cells as [|[k v] r IH]; intros acc Hf Hnd.
   - cbn [map]. rewrite app_nil_r. reflexivity.
   - pose proof (Hf (k, v) (or_introl eq_refl)) as Hk. cbn [fst] in Hk.
     cbn [foldM fst snd]. rewrite Hk. cbn [bind fst].
-    cbn [map fst] in Hnd. rewrite oset_absent_str.
+    cbn [map fst] in Hnd. rewrite rekey_put_new.
     + rewrite IH.
       * cbn [map fst snd]. rewrite <- app_assoc. reflexivity.
       * intros kv Hin. apply Hf. right. exact Hin.
